@@ -234,6 +234,56 @@ def cases_sweep(tier):
     return gen_cases
 
 
+async def twice_same_days(case):
+    from aioswitcher.schedule import Days
+    dev = await env.device()
+    cl = ops.Client(dev, 1, case["device_id"], f"{case['key']:02x}")
+    await cl.connect()
+    try:
+        seq = [getattr(Days, n) for n in case["args"]["days"]]
+        days = {"set": set, "list": list, "tuple": tuple}[case["args"].get("days_form", "set")](seq)
+        out = []
+        with vclock.frozen_epoch(case.get("zone", "UTC"), case["ts"]):
+            for i in range(case.get("repeat", 2)):
+                n0 = len(cl.conn.frames)
+                cl.conn.script.clear()
+                cl.conn.script.extend(ops.good_script("create_schedule", case["args"], case["session"], salt=case.get("salt", 1) + i))
+                try:
+                    await cl.api.create_schedule(case["args"]["start"], case["args"]["end"], days)
+                    status = "ok"
+                except Exception as exc:  # noqa
+                    status = f"{type(exc).__name__}: {exc}"
+                await cl.settle()
+                out.append((status, list(cl.conn.frames[n0:])))
+        return out, [d.name for d in days]
+    finally:
+        await cl.close()
+
+
+def body_twice(rep, case):
+    """The caller keeps its `days` collection and passes the very same object to consecutive calls: each call must
+    encode it in full (the library may not consume or edit the caller's argument)."""
+    exp = expected_frames(dict(case, kind="create_schedule"))
+    if exp is None:
+        rep.label("nonexistent-local-time-skipped")
+        return
+    out, days_after = net.run(twice_same_days(case))
+    rep.tick("same-days-object-twice", key=case, nontrivial=True, sample=case)
+    if sorted(days_after) != sorted(case["args"]["days"]):
+        raise Violation("C02/callers-days-argument-modified", case, sorted(case["args"]["days"]), sorted(days_after))
+    for i, (status, frames) in enumerate(out):
+        if status != "ok" or len(frames) != 2 or frames[1] not in exp[1]:
+            raise Violation("C02/command-frame-mismatch/op=create_schedule/same-days-object-call-" + str(i + 1), case,
+                            exp[1][0].hex(), {"status": status, "frames": [f.hex() for f in frames]})
+
+
+def strat_twice():
+    return st.builds(lambda a, dev_id, key, sess, ts, salt, rpt: {"kind": "create_schedule", "args": a, "device_id": dev_id, "key": key,
+                                                                  "session": sess, "ts": ts, "salt": salt, "zone": "UTC", "repeat": rpt},
+                     gen.op_args("create_schedule").filter(lambda a: a.get("days")), gen.device_ids, gen.keys_int, gen.sessions,
+                     gen.timestamps, st.integers(1, 100), st.integers(2, 3))
+
+
 def cases_small():
     """Finite argument domains enumerated completely: positions 0..100, slots 0..7, on/off x boundary minutes."""
     base = {"device_id": "0a1b2c", "key": 0x5A, "session": "f1e2d3c4", "ts": 1_718_000_123, "salt": 5}
@@ -256,6 +306,7 @@ def subchecks(tier):
     subs.append(Sub("accept/create_schedule@dst-days", lambda rep, case: body_accept(rep, case, "accept/create_schedule@dst-days"),
                     strategy=strat_schedule_dst, n=n, shards=shards))
     subs += [Sub(f"reject/{w}", body_reject, strategy=strat_reject(w), n=n // 2, shards=shards) for w in REJECTS]
+    subs.append(Sub("same-days-object-twice", body_twice, strategy=strat_twice, n=20_000 if big else 300, shards=16 if big else 1))
     subs.append(Sub("sweep/create_schedule", body_sweep, cases=cases_sweep(tier), shards=16, exhaustive=big))
     subs.append(Sub("sweep/small-domains", lambda rep, case: body_accept(rep, case, "sweep/small-domains"), cases=cases_small,
                     shards=8, exhaustive=True))
